@@ -127,6 +127,9 @@ def monitor(lines, out):
     for o in out:
         if o.startswith("cfgerr") or o.startswith("uperr") or o == "held false":
             return "harness: " + o
+    for o in out:
+        if o.startswith("drained backlog=") and o != "drained backlog=0":
+            return "the endpoint stayed up, yet the spool still held %s lines after 90 s (the backlog does not drain)" % o.split("=")[1]
     sent = [bytes.fromhex(l.split()[1]) for l in lines if l.startswith("l ")]
     sentset = set(sent)
     got = set()
